@@ -10,6 +10,7 @@ import Driver.WsStore
 import Driver.Stats
 import Driver.RawBytes
 import Driver.Conc
+import Driver.Supervise
 import Driver.UdpNet
 
 def main (args : List String) : IO UInt32 := do
@@ -26,6 +27,7 @@ def main (args : List String) : IO UInt32 := do
   | ["stats"] => StatsDrv.main; return 0
   | ["rawbytes"] => RawBytesDrv.main; return 0
   | ["conc"] => ConcDrv.main; return 0
+  | ["supervise"] => SuperviseDrv.main; return 0
   | ["udpnet"] => UdpNetDrv.main; return 0
   | _ =>
     IO.eprintln "usage: driver <family>   (lines on stdin)"
